@@ -285,6 +285,7 @@ def _check_visit(w, red, vis, ch, Xn, qcol, rcol, means, by_id,
     nq = len(cells)
     lo = np.zeros((nq, len(child_names)), dtype=int)
     amb_iter = np.zeros(nq, dtype=int)
+    const_iter = np.zeros(nq, dtype=int)
     corr_sum = np.zeros((nq, len(child_names)))
     amb_any = np.zeros(nq, dtype=bool)
     cand_mask_total = np.zeros((nq, len(child_names)), dtype=int)
@@ -314,6 +315,7 @@ def _check_visit(w, red, vis, ch, Xn, qcol, rcol, means, by_id,
             if q_const[i]:
                 bump(dontcare, 'constant_query_vector_votes')
                 cand_children = set(range(len(child_names)))
+                const_iter[i] += 1
             if len(cand_children) > 1:
                 amb_any[i] = True
                 amb_iter[i] += 1
@@ -345,6 +347,21 @@ def _check_visit(w, red, vis, ch, Xn, qcol, rcol, means, by_id,
                          f'cell {cid}: {a!r} is not a child of {pkey}'))
             continue
         votes_rep = lr['bootstrapping_probability'] * n_iter
+        if amb_any[i] and const_iter[i] == len(vis['draws']) and \
+                len(vis['draws']) > 0:
+            # the cell was constant on every drawn subset: whichever child
+            # collected the votes, every winning correlation was 0 (the
+            # code's convention for a vector without variance), so the
+            # reported means are exactly 0
+            bump(counters, 'cell_nodes_constant_on_every_subset')
+            bad = [c for c in [lr['avg_correlation']] +
+                   list(lr.get('runner_up_correlation') or [])
+                   if abs(c) > tol]
+            if bad:
+                out.append(V('C02:avg-correlation',
+                             f'cell {cid} at {pkey}: constant on every '
+                             f'drawn subset (every correlation is 0) but '
+                             f'reported correlations {bad[:3]}'))
         if amb_any[i]:
             bump(counters, 'cell_nodes_with_ambiguity')
             hi = lo[i] + cand_mask_total[i]
